@@ -80,7 +80,7 @@ let handle (p : string) : string =
   match List.filter (fun s -> s <> "") (split p) with
   | [] -> "bad"
   | nc :: ops ->
-    let ncl = ios nc in
+    let ncl = ios (List.hd (String.split_on_char ':' nc)) in
     let st = ref (init_state (n_of_int ncl)) in
     let obs = ref [] and srv = ref [] in
     let nsend = ref 0 and nsrv = ref 0 and ndisc = ref 0 and npush = ref 0 and nerr = ref 0 and nbig = ref 0 in
